@@ -438,6 +438,29 @@ func (w *world) c07Leases(counts map[string]int, reqs map[string]M, items []Item
 		return out
 	}
 	pt, ct, cp := rowsOf(prev, "tasks"), rowsOf(cur, "tasks"), rowsOf(cur, "promises")
+	// "a holder that renews its lease before it runs out keeps the task": a heartbeat of process P executed in this batch
+	// renews every task claimed by exactly P (process ids are compared as given) that this batch did not otherwise touch
+	for _, it := range items {
+		rq := reqs[it.Tid]
+		c, _ := rq["c"].(map[string]any)
+		if rq["k"] != "HeartbeatTasks" || c == nil || it.Mode == "before" {
+			continue
+		}
+		pid := fmt.Sprint(c["processId"])
+		for id, t := range pt {
+			u := ct[id]
+			if u == nil || jnum(t["state"]) != 4 || fmt.Sprint(t["processId"]) != pid {
+				continue
+			}
+			if jnum(u["state"]) != 4 || jnum(u["counter"]) != jnum(t["counter"]) || fmt.Sprint(u["processId"]) != pid || jnum(u["ttl"]) != jnum(t["ttl"]) {
+				continue // finished, reclaimed or re-claimed by something else in this batch
+			}
+			if want := w.submitAt[it.Tid] + jnum(t["ttl"]); jnum(u["expiresAt"]) < want {
+				return fmt.Sprintf("heartbeat of process %q (submitted at clock %d) did not renew the lease of task %q held by that process: expires at %d, ttl %d, so at least %d expected", pid, w.submitAt[it.Tid], id, jnum(u["expiresAt"]), jnum(t["ttl"]), want)
+			}
+			counts["lease_heartbeat_checked"]++
+		}
+	}
 	for id, t := range pt {
 		l := w.leases[id]
 		u := ct[id]
